@@ -279,3 +279,39 @@ package schedule
 //@ props C02
 //@ at call NewUnlimited assert [fields-forwarded] arg(duration) == conf.Duration
 //@ ensures calls(NewUnlimited) == old(calls(NewUnlimited)) + 1
+
+// ---------------------------------------------------------------- validation tags the constructors' preconditions rely on
+// (checked by the config decoder, core/config.DecodeAndValidate, before a constructor runs)
+
+//@ struct ConstConfig
+//@ props C01 C17
+//@ tag Ops validate min=0
+//@ tag Duration validate min-time=1ms
+
+//@ struct LineConfig
+//@ props C01 C17
+//@ tag From validate min=0
+//@ tag To validate min=0
+//@ tag Duration validate min-time=1ms
+
+//@ struct StepConfig
+//@ props C01 C17
+//@ tag From validate min=0
+//@ tag To validate min=0
+//@ tag Step validate min=1
+//@ tag Duration validate min-time=1ms
+
+//@ struct OnceConfig
+//@ props C01 C17
+//@ tag Times validate min=1
+
+//@ struct InstanceStepConfig
+//@ props C02 C12 C17
+//@ tag From validate min=0
+//@ tag To validate min=0
+//@ tag Step validate min=1
+//@ tag StepDuration validate min-time=1ms
+
+//@ struct UnlimitedConfig
+//@ props C02 C17
+//@ tag Duration validate min-time=1ms
